@@ -375,6 +375,8 @@ def _run_list(case, R):
 
     for op in case["ops"]:
         name = op["op"]
+        if len(M) > 400 and (name in ("imul", "mul") or op.get("ik") == "self"):
+            continue  # doubling a list again and again in a long history only burns memory and time
         R.label("op:" + name)
         if name == "append":
             compare(name, _outcome(lambda: L.append(op["v"])), _outcome(lambda: M.append(norm(kind, op["v"]))))
